@@ -9,6 +9,7 @@ import (
 	"gosim/hb"
 
 	"github.com/tsuna/gohbase"
+	simrt "github.com/tsuna/gohbase/verifsimrt"
 )
 
 func (w *World) viol(prop, oracle, format string, a ...any) Violation {
@@ -313,4 +314,13 @@ func sortedKeys[V any](m map[string]V) []string {
 	}
 	sort.Strings(ks)
 	return ks
+}
+
+// simrtLive returns (label, site) of the live managed goroutines.
+func simrtLive() [][2]string {
+	var out [][2]string
+	for _, g := range simrt.Live() {
+		out = append(out, [2]string{g.Label, g.Site})
+	}
+	return out
 }
